@@ -120,8 +120,15 @@ Section Mask.
     amp_of RatioImf (AmpScalar A a) layer X [] = Some (amul a (std X)) /\
     amp_of RatioImf (AmpScalar A a) layer X (acc ++ [p]) = Some (amul a (std p)) /\
     (forall mode, amp_of mode (AmpArray A l) layer X acc =
-                  match nth_error l layer with Some a' => amp_of mode (AmpScalar A a') layer X acc | None => None end).
+                  match nth_error l layer with Some a' => amp_of mode (AmpScalar A a') layer X acc | None => None end) /\
+    (forall mode, amp_of mode (AmpNpScalar A a) layer X acc = amp_of mode (AmpScalar A a) layer X acc).
   Proof. exact (MaskSiftFacts.amp_mode_spec V A vzero amul aone std). Qed.
+
+  (* the code before the repair (isinstance(mask_amp, (int, float))) indexed numpy scalars: IndexError *)
+  Theorem amp_numpy_scalar_v0 : forall mode a layer X acc,
+    amp_of_v0 V A vzero amul aone std mode (AmpNpScalar A a) layer X acc = None /\
+    amp_of mode (AmpNpScalar A a) layer X acc = Some (amul a (amp_sd V A vzero aone std mode X acc)).
+  Proof. exact (MaskSiftFacts.amp_numpy_scalar_v0 V A vzero amul aone std). Qed.
 
   Theorem amp_sd_ratio_imf_previous_column : forall X imfs k, (1 <= k <= length imfs)%nat ->
     amp_sd V A vzero aone std RatioImf X (firstn k imfs) = std (nth (k - 1) imfs vzero).
@@ -188,6 +195,16 @@ Theorem fx_gni_mask_schedule_independent : forall c nworkers s X z amp n,
   valid_schedule nworkers n s = true -> fx_gni_mask_pool c s X z amp n = fx_gni_mask c X z amp n.
 Proof. exact MaskSiftFacts.fx_gni_mask_schedule_independent. Qed.
 
+(* finding C07-numpy-scalar-amplitude: the code before the repair raised before the first layer for a numpy scalar
+   amplitude; the repaired code returns what the Python number gives *)
+Theorem mask_sift_numpy_scalar_v0_refuted :
+  exists c X imfs e fr,
+    (exists e0 fr0, fx_mask_sift_v0 c 60 (FreqFloat Q (1 # 4)) (2 # 1) 3 (AmpNpScalar Z 20) 4 X = Some ([], e0, fr0) /\ raised e0 = true) /\
+    fx_mask_sift c 60 (FreqFloat Q (1 # 4)) (2 # 1) 3 (AmpNpScalar Z 20) 4 X = Some (imfs, e, fr) /\
+    fx_mask_sift c 60 (FreqFloat Q (1 # 4)) (2 # 1) 3 (AmpScalar Z 20) 4 X = Some (imfs, e, fr) /\
+    length imfs = 3%nat /\ raised e = false.
+Proof. exact MaskSiftFacts.mask_sift_numpy_scalar_v0_refuted. Qed.
+
 Example round_robin_valid_1_8 :
   forallb (fun n => forallb (fun w => valid_schedule w n (round_robin w n)) (seq 1 8)) (seq 0 9) = true.
 Proof. exact MaskSiftFacts.round_robin_valid_1_8. Qed.
@@ -211,7 +228,9 @@ Print Assumptions gni_mask_zero_amp.
 Print Assumptions gni_mask_schedule_independent.
 Print Assumptions ladder_nth.
 Print Assumptions amp_mode_spec.
+Print Assumptions amp_numpy_scalar_v0.
 Print Assumptions amp_sd_ratio_imf_previous_column.
+Print Assumptions mask_sift_numpy_scalar_v0_refuted.
 Print Assumptions mask_freqs_by_source.
 Print Assumptions mask_freqs_returned_are_used.
 Print Assumptions mask_sift_schedule_independent.
